@@ -35,6 +35,6 @@ HARNESSES = [
                  'PrecomputedTransactionData::Init (BIP143 part)', 'GenericTransactionSignatureChecker<CTransaction>::CheckECDSASignature (script/interpreter.cpp)', 'HashWriter (hash.h)', 'CScript::GetOp (script/script.cpp)', 'serialize.h formatters', 'CPubKey ctor/IsValid (pubkey.h)'],
       stubs=['CSHA256 -> recording model with persistent state (state = node of a tree of Write events; Finalize logs the message and returns its label): collision-free hash abstraction', 'VerifyECDSASignature (virtual) -> recorder with symbolic verdict',
              'CPubKey::Verify / XOnlyPubKey::VerifySchnorr etc. nondeterministic (unreached)', 'memory_cleanse -> no-op', 'tinyformat -> empty strings', 'assertion_fail -> CBMC assertion'],
-      assumptions=['legacy scriptCode bytes are concrete per kind (the script is parsed for OP_CODESEPARATOR removal); witness scriptCode: 3 symbolic bytes or concrete kinds', 'checker harness: amount >= 0 (negative amount = missing data path, not exercised)'],
+      assumptions=['scriptCode parses completely (a script with a truncated push fails to execute whatever its digest; the legacy serializer then emits fewer bytes than announced - observed while building, historical consensus behaviour, not claimed)', 'legacy scriptCode bytes are concrete per kind (the script is parsed for OP_CODESEPARATOR removal); witness scriptCode: 3 symbolic bytes or concrete kinds', 'checker harness: amount >= 0 (negative amount = missing data path, not exercised)'],
       bounds='quick: 16 SignatureHash shapes + 6 two-call checker shapes (see SH_Q); thorough: full cross product NIN 1-2 x NOUT 0-2 x input index x 12 hash-type values x {legacy, witness v0} x scriptCode kinds. scriptPubKeys 2 bytes, scriptCode <= 4 bytes; hash types are concrete values per shape (12 values in thorough), everything else symbolic'),
 ]
